@@ -55,6 +55,14 @@ CLAIMED.update({
    design="4 C17"),
 })
 
+CLAIMED.update({
+ "C06": dict(
+   technique="Coq proof: hand model of every derived FormulaManager constructor, shortcuts.Abs and the FNode infix forms, proved against core/Sem.v for all arities, values and widths (generic halving-recursion lemma for Min/Max, sign-case proof of bvsmod on Z, independent definition of each Python operator's meaning) + exact structural model/implementation correspondence on ~24k calls per run + independent evaluation vs direct Python definitions",
+   text="coq/props/C06.v: each derived constructor (>=, >, !=, xor, min/max, at-most-one, exactly-one, all-different, abs, equals-or-iff, SBV, bvsmod, nand/nor/xnor, ugt/uge/sgt/sge, repeat, n-ary BV and/or/add/mul/concat, shifts by int) and each infix operator / method builds a term whose value is the named mathematical function, for all arities, values and bit-widths; the model's acceptance domain (when the call raises) is part of the statements.",
+   note="Trusted: Coq kernel, core/Sem.v (standard-library classical/real axioms as reported), hand model tied by exact correspondence, harness/refeval.py and tocoq.py. Hypotheses: operand values of the stated sort, bv_width() equals the value's width, Not nodes are unary. Constant-cache cross-type hits are left to C14/C04.",
+   design="4 C06"),
+})
+
 NOT_YET = "machinery for this property is not built yet (work in progress, see DESIGN.md section 8)"
 
 def main():
